@@ -198,12 +198,16 @@ def _check_specific_rule_ignore(line: str, rule_id: str) -> bool:
     return True
 
 
+# The directive's own "ignore" (not the ignore[...] of another tool's comment on the same line)
+_LINE_DIRECTIVE = r"(?:thailint|design-lint):\s*ignore"
+
+
 def _check_specific_rule_in_line(code: str, rule_id: str) -> bool:
     """Check if line's ignore directive matches specific rule."""
-    bracket_match = re.search(r"ignore\[([^\]]+)\]", code, re.IGNORECASE)
+    bracket_match = re.search(_LINE_DIRECTIVE + r"\[([^\]]+)\]", code, re.IGNORECASE)
     if bracket_match:
         return check_bracket_rules(bracket_match.group(1), rule_id)
-    space_match = re.search(r"ignore\s+([^\s#]+(?:\s+[^\s#]+)*)", code, re.IGNORECASE)
+    space_match = re.search(_LINE_DIRECTIVE + r"\s+([^\s#]+(?:\s+[^\s#]+)*)", code, re.IGNORECASE)
     if space_match:
         return check_space_separated_rules(space_match.group(1), rule_id)
     # A bare "thailint: ignore" (nothing but an optional further comment after it) names no
